@@ -632,4 +632,106 @@ theorem c10_settle_forwards (cfg : Cfg) (st : St) (W : Nat) (rc : Bytes → RcAn
 
 example : PollerInv { pending := [p1], enabled := true, last := 101 } ∧ (101 : Nat) < 100000 := ⟨fun _ => rfl, by decide⟩
 
+/-! ## A log delivered while a head is being processed -/
+
+private def ev2 : Event := { sender := [8], targetChain := 0, seq := 6, nonce := 3, payload := [4], cl := 1, rawTx := [0xaa, 2], rawBh := [0xbb, 9], rawBn := 104 }
+private def p2 : Pend := mkPend cfgBsc ev2 1700000002
+private def stRace : St := { pending := [p1], enabled := true, last := 101 }
+private def goodAll : Bytes → RcAns := fun tx => if tx = p1.msg.tx then goodRc p1 else goodRc p2
+
+/-- **A log that arrives during a head scan is kept.** The scan and the insertion are serialised by `pendingMu`
+(`headThenLog`): the new message is pending afterwards and the poller is on, what the scan forwarded is what it would have
+forwarded without the arrival, and every entry the scan kept (under another key) is still there. -/
+theorem c10_log_during_head_kept (cfg : Cfg) (st : St) (W : Nat) (rc : Bytes → RcAns) (ev : Event) (bt : Nat) :
+    mkPend cfg ev bt ∈ (headThenLog cfg st W rc ev bt).1.pending ∧
+    (headThenLog cfg st W rc ev bt).1.enabled = true ∧
+    (headThenLog cfg st W rc ev bt).2 = (settle cfg st W rc).2 ∧
+    ∀ q ∈ (settle cfg st W rc).1.pending, q.key ≠ (mkPend cfg ev bt).key → q ∈ (headThenLog cfg st W rc ev bt).1.pending := by
+  refine ⟨?_, rfl, rfl, ?_⟩
+  · unfold headThenLog onLog
+    exact mem_insertPend_self _ _
+  · intro q hq hk
+    unfold headThenLog onLog
+    exact mem_insert_of_ne (Ne.symm hk) hq
+
+example : (headThenLog cfgBsc stRace 103 goodAll ev2 1700000002).1.pending = [p2] ∧
+          ((headThenLog cfgBsc stRace 103 goodAll ev2 1700000002).2.map (·.forwarded)) = some [p1] := by decide
+
+/-- **... and is forwarded exactly once after its depth is reached.** After a head scan during which the log of `b` arrived,
+over any further sequence of events (heads advancing by any amount) in which `b`'s key is not delivered again and every
+processed head finds a successful receipt pointing at `b`'s block, `b` is forwarded exactly once if some processed head
+reaches `height + conf`, and never otherwise. -/
+theorem c10_log_during_head_forwarded_once (cfg : Cfg) (topic : Bytes) (st : St) (W : Nat) (rc : Bytes → RcAns) (ev : Event)
+    (bt : Nat) (evs : List Ev)
+    (hu : UniqueKeys st.pending) (hno : NoOverflow cfg (mkPend cfg ev bt))
+    (hst : ∀ e ∈ evs, Stable cfg topic (mkPend cfg ev bt) e) :
+    fwdCount (mkPend cfg ev bt).key (run cfg topic (headThenLog cfg st W rc ev bt).1.pending evs).2 =
+      (if evs.any (readyAt cfg (mkPend cfg ev bt)) then 1 else 0) := by
+  have hu' : UniqueKeys (headThenLog cfg st W rc ev bt).1.pending := by
+    unfold headThenLog onLog
+    exact uniqueKeys_insert _ (uniqueKeys_settle cfg st W rc hu)
+  exact (c10_exactly_once cfg topic evs _ _ hu' (c10_log_during_head_kept cfg st W rc ev bt).1 hno hst).1
+
+example : fwdCount p2.key (run cfgBsc topic1 (headThenLog cfgBsc stRace 103 goodAll ev2 1700000002).1.pending
+    [.head 104 false goodAll, .head 105 false goodAll, .head 175 false goodAll]).2 = 1 := by decide
+
+/-- A scan that works on a copy of the pending set and assigns the copy back (`headSnapshotWriteBack`, not the code) violates
+both theorems: log of `p1` at block 101 (cl 2), head 103 being processed while the log of `p2` (block 104, cl 1) arrives —
+`p2` is not pending afterwards, the poller is off, and no later head forwards it although its receipt stays fine. This is the
+input the check reports for such a change (clauses `final-not-forwarded` / `pending-lost`, op `race`). -/
+theorem c10_snapshot_writeback_witness :
+    p2 ∉ (headSnapshotWriteBack cfgBsc stRace 103 goodAll ev2 1700000002).1.pending ∧
+    (headSnapshotWriteBack cfgBsc stRace 103 goodAll ev2 1700000002).1.enabled = false ∧
+    fwdCount p2.key (run cfgBsc topic1 (headSnapshotWriteBack cfgBsc stRace 103 goodAll ev2 1700000002).1.pending
+      [.head 105 false goodAll, .head 175 false goodAll]).2 = 0 ∧
+    fwdCount p2.key (run cfgBsc topic1 (headThenLog cfgBsc stRace 103 goodAll ev2 1700000002).1.pending
+      [.head 105 false goodAll, .head 175 false goodAll]).2 = 1 := by decide
+
+/-! ## Which head the re-observation path reads -/
+
+/-- **The re-observation path reads the head the poller reads**: the finalized head on a chain read at finalized height
+(Ethereum outside dev mode), the latest head otherwise — requested under the corresponding block tag. -/
+theorem c10_reobserve_head_by_mode (cfg : Cfg) (lat fin : Nat) :
+    (cfg.useFinalized = true ↔ (cfg.chainId = 2 ∧ cfg.dev = false)) ∧
+    (cfg.useFinalized = true → reobsHeadTag cfg = "finalized" ∧ reobsHead cfg lat fin = fin) ∧
+    (cfg.useFinalized = false → reobsHeadTag cfg = "latest" ∧ reobsHead cfg lat fin = lat) := by
+  refine ⟨?_, ?_, ?_⟩
+  · unfold Cfg.useFinalized
+    cases cfg.dev <;> simp
+  · intro h
+    unfold reobsHeadTag reobsHead blockTag
+    simp [h]
+  · intro h
+    unfold reobsHeadTag reobsHead blockTag
+    simp [h]
+
+example : reobsHeadTag cfgEth = "finalized" ∧ reobsHead cfgEth 132 100 = 100 ∧ reobsHeadTag cfgBsc = "latest" ∧ reobsHead cfgBsc 132 100 = 132 := by decide
+
+/-- **Re-observation on a chain read at finalized height forwards only what is final.** With the head read as above, every
+message the re-observation path forwards sits in a block whose number (plus the message's confirmations, when the watcher
+honours them) is at most the *finalized* head — however far the latest head is ahead. -/
+theorem c10_reobserve_final_on_finalized_chain (cfg : Cfg) (topic : Bytes) (lat fin : Nat) (rc : Option Receipt)
+    (rcErr : Bool) (bt : Option Nat) (m : Msg) (hfin : cfg.useFinalized = true)
+    (hm : m ∈ reobsForwarded cfg (some (reobsHead cfg lat fin)) (messageEvents cfg.contract topic cfg.chainId rc rcErr bt)) :
+    ∃ r bn, rc = some r ∧ r.status = 1 ∧ r.bn = some bn ∧
+      (bn % U64 + (if cfg.wait then m.cl else 0) < U64 → bn % U64 + (if cfg.wait then m.cl else 0) ≤ fin % U64) := by
+  obtain ⟨r, t, n, bn, l, ev, hrc, _, hst, _, hn, hbn, _, _, _, _, _, _, hle⟩ :=
+    c10_reobserve_checks cfg topic (some (reobsHead cfg lat fin)) rc rcErr bt m hm
+  refine ⟨r, bn, hrc, hst, hbn, ?_⟩
+  intro hlt
+  have hn' : n = fin := by
+    simp only [Option.some.injEq] at hn
+    rw [← hn]
+    unfold reobsHead
+    simp [hfin]
+  subst hn'
+  unfold add64 at hle
+  rw [Nat.mod_eq_of_lt hlt] at hle
+  exact hle
+
+private def receiptFin : Receipt := { status := 1, bh := bh1, bn := some 121, logs := [some rlog1] }
+
+example : reobsForwarded cfgEth (some (reobsHead cfgEth 132 100)) (messageEvents cfgEth.contract topic1 cfgEth.chainId (some receiptFin) false (some 1700000000)) = [] ∧
+          reobsForwarded cfgEth (some (reobsHead cfgEth 153 121)) (messageEvents cfgEth.contract topic1 cfgEth.chainId (some receiptFin) false (some 1700000000)) = [mkMsg 2 ev1 1700000000] := by decide
+
 end Whv.C10
